@@ -34,15 +34,19 @@ func Main(c16 bool) {
 	ck.Run(corpus)
 
 	tokLen, conLen, nLayout, nMal, nFault := 5, 6, 50000, 50000, 0
+	seqLen := 5
 	prefLen := 5
 	if f.Thorough() {
 		tokLen, conLen, nLayout, nMal = 6, 7, 2000000, 1000000
 		prefLen = 5
+		seqLen = 6
 	}
 	if c16 {
 		tokLen, prefLen, conLen, nLayout, nMal, nFault = 4, 3, 4, 40000, 10000, 60000
+		seqLen = 4
 		if f.Thorough() {
 			tokLen, prefLen, conLen, nLayout, nMal, nFault = 5, 4, 5, 1000000, 200000, 2000000
+			seqLen = 5
 		}
 	}
 
@@ -53,6 +57,19 @@ func Main(c16 bool) {
 			emit(Case{Text: "pattern " + s, Stream: "enum_token_prefixed"})
 			emit(Case{Text: "x " + s, Stream: "enum_token_prefixed"})
 		})
+	})
+	// 2c. exhaustive, token-sequence level: every sequence of <= seqLen whole tokens (quoted pieces of both
+	// kinds, quoted `+`, the unquoted `+`, punctuation, an unquoted word, the empty string) behind a keyword,
+	// separated by one blank and, for the shorter ones, not separated at all
+	ck.RunChunked(func(emit func(Case)) {
+		for _, kw := range []string{"x", "pattern"} {
+			EnumSeq(SeqAlphabet, seqLen, func(toks []string) {
+				emit(Case{Text: kw + " " + strings.Join(toks, " "), Stream: "enum_tokenseq"})
+				if len(toks) <= seqLen-1 && kw == "x" {
+					emit(Case{Text: kw + " " + strings.Join(toks, ""), Stream: "enum_tokenseq"})
+				}
+			})
+		}
 	})
 	// 2b. exhaustive, string-content level
 	ck.RunChunked(func(emit func(Case)) {
@@ -85,8 +102,8 @@ func Main(c16 bool) {
 	})
 	ck.Finish()
 	res.Exhaustive = true
-	res.Rule = fmt.Sprintf("yang.Parse vs impl model (whole canonical result: forest with keywords, argument presence, argument bytes, nesting, order, file:line:col of every statement, or the error lines as (line, col, class)) on every text; yang.Parse vs the reference reader on every well-encoded admissible text. Streams: corpus (defect witnesses, /repo YANG files and test literals); exhaustive: every string of <= %d symbols over {a SP LF TAB ; { } \" ' \\ + / * n e-acute}, and of <= %d symbols behind `pattern ` and `x `; every string content of <= %d (last three prefixes: %d) symbols over {a SP TAB LF \\ n \" e-acute} behind %d prefixes that put the opening quote at different tab-expanded columns (after a tab, a comment, a multi-byte character, a single-quoted piece, in a pattern argument); seeded random: %d layouts of random forests (quoting styles, + splitting, comment/blank/CRLF filler, continuation-line indentation, escapes), %d mutated texts (token/byte deletion, insertion, truncation, invalid UTF-8, error-budget overflow)%s. distinct_nontrivial = distinct texts containing a quote, a comment opener or a block",
-		tokLen, prefLen, conLen, conLen-1, len(QuotePrefixes), nLayout, nMal,
+	res.Rule = fmt.Sprintf("yang.Parse vs impl model (whole canonical result: forest with keywords, argument presence, argument bytes, nesting, order, file:line:col of every statement, or the error lines as (line, col, class)) on every text; yang.Parse vs the reference reader on every well-encoded admissible text. Streams: corpus (defect witnesses, /repo YANG files and test literals); exhaustive: every string of <= %d symbols over {a SP LF TAB ; { } \" ' \\ + / * n e-acute}, and of <= %d symbols behind `pattern ` and `x `; every sequence of <= %d whole tokens over {\"a\" 'b' \"+\" '+' + ; { } c \"\"} behind `x ` and `pattern ` (blank-separated, and unseparated for the shorter ones); every string content of <= %d (last three prefixes: %d) symbols over {a SP TAB LF \\ n \" e-acute} behind %d prefixes that put the opening quote at different tab-expanded columns (after a tab, a comment, a multi-byte character, a single-quoted piece, in a pattern argument); seeded random: %d layouts of random forests (quoting styles, + splitting, comment/blank/CRLF filler, continuation-line indentation, escapes), %d mutated texts (token/byte deletion, insertion, truncation, invalid UTF-8, error-budget overflow)%s. distinct_nontrivial = distinct texts containing a quote, a comment opener or a block",
+		tokLen, prefLen, seqLen, conLen, conLen-1, len(QuotePrefixes), nLayout, nMal,
 		map[bool]string{true: fmt.Sprintf(", %d single-fault texts whose first positioned error must stand at the position the reference reader computes for the injected fault", nFault), false: ""}[c16])
 	res.Write(f.Out)
 	if len(res.Disagreements) > 0 {
